@@ -18,6 +18,34 @@ import (
 	"verif.local/mc/schedrig"
 )
 
+func count(l []string, s string) int {
+	n := 0
+	for _, x := range l {
+		if x == s {
+			n++
+		}
+	}
+	return n
+}
+
+// stopSpinner: Stop goes through the non-blocking SyncFunc, which a full queue may drop (that is
+// PostEvent's contract) - the application asks again until a request has come through.
+func stopSpinner(w *schedrig.World, sp *spinner.Model) {
+	from := len(w.Got)
+	for i := 0; i < 12; i++ {
+		sp.Stop()
+		for j := 0; j < 4; j++ {
+			if count(w.Got[from:], "syncfunc") > 0 {
+				return
+			}
+			if _, ok := w.Next(); !ok {
+				return
+			}
+		}
+	}
+	w.Failf("lost-event", "the spinner's stop request never reached the main goroutine: %v", w.Got)
+}
+
 var scenarios = []schedrig.Scenario{
 	{Name: "posts", Queue: 2, Body: func(w *schedrig.World) {
 		schedrig.Poster(w, "A", 2)
@@ -189,8 +217,7 @@ var scenarios = []schedrig.Scenario{
 			}
 			sp.Draw(w.Vx.Window())
 		}
-		sp.Stop()
-		w.Until(func() bool { return w.Got[len(w.Got)-1] == "syncfunc" })
+		stopSpinner(w, sp)
 		w.Vx.Close()
 	}},
 	{Name: "spinner-with-full-queue", Queue: 2, Body: func(w *schedrig.World) {
@@ -207,8 +234,7 @@ var scenarios = []schedrig.Scenario{
 		if !w.Seen("A3") {
 			w.Failf("lost-event", "blocking posts not delivered: %v", w.Got)
 		}
-		sp.Stop()
-		w.Until(func() bool { return w.Got[len(w.Got)-1] == "syncfunc" })
+		stopSpinner(w, sp)
 		w.Vx.Close()
 	}},
 	{Name: "sigwinch", Queue: 8, Body: func(w *schedrig.World) {
